@@ -15,6 +15,12 @@ claimed = {
  "C07": dict(cat="proof", sec="7/C07",
    text="Deductive proof of the health-check state machine per function for all inputs: determineStatus decision table (healthy only for a reached 2xx; connection/timeout/circuit-open errors offline; error statuses unhealthy), classifyError table over the error abstraction, calculateBackoff == (delayOf, nextMult) with the arithmetic lemmas that the multiplier sequence is 1,2,4,8,12,12.. and the delay is min(interval*M, 60 s), checkEndpoint persists exactly the check's status, resets on success, advances failures/multiplier/next-check on failure and spawns one recovery callback iff not-healthy(and not unknown)->healthy and the update succeeded; HealthClient.Check: healthy only after a real client.Do, loop terminates (decreases), success clears the breaker.",
    note="Histories are covered by induction over per-call contracts (sched lemmas), not enumerated. Ghost records (records clauses) name the values flowing into EndpointRepository.UpdateEndpoint and out of HealthClient.Check; they are definitional. Not decided: that the 30 s ticker keeps firing (runtime), the stale-snapshot race between checkEndpoint and markEndpointUnhealthy, overflow of interval*multiplier for intervals above 24 years (mathematical integers). One genuine defect (slow 5xx reported busy) was found, replayed and fixed."),
+ "C03": dict(cat="proof", sec="7/C03",
+   text="Deductive proof for all endpoint lists and statuses that every selector (priority, round-robin, least-connections) returns a routable member of the list it was given or an error exactly when no member is routable (each refines the EndpointSelector interface contract); the repository hands out only fresh copies (GetHealthy/GetRoutable/GetAll: every element is a new object equal to a stored record with the required status, and every stored record with that status is represented), UpdateEndpoint changes exactly the six scheduling fields of the addressed record and succeeds iff the key is known, all under the repository's lock discipline (guarded_by obligations); DiscoveryService delegates; the retry loop only ever dispatches to Select's result over a subset of the candidate list (loop invariants, unbounded) and marks a connection-failed endpoint offline through exactly one UpdateEndpointStatus call.",
+   note="Schedules are covered only through device 1 (every access to the endpoint map happens with the mutex held: checked) and device 3 (snapshots are fresh copies: checked); mutex semantics trusted. The handlers' candidate-set filters (profile/capability/model routing) belong to C09/C11 and are not part of this check. sort.Slice, math/rand, range-over-map enumeration are trusted models; slices are values."),
+ "C04": dict(cat="proof", sec="7/C04",
+   text="Deductive proof of the failover loop for all outcome sequences (no bound): loop invariants of RetryHandler.ExecuteWithRetry give attempts == old+attemptCount, |available| == |candidates| - attempts, candidates by unique name, each failed/skipped candidate removed (removeFailedEndpoint positional contract), nothing written to the client before a re-dispatch, gauges restored; the final error is built only when every candidate was tried (call-site assertion); a circuit-open skip or a connection error moves on, any other error returns. IsConnectionError is proved equal to a structural definition (net.Error / errno / the nine message patterns read from the code's table); MakeUserFriendlyError is proved to preserve that class in both directions per return site; the olla breaker pre-dial check is covered by C08.",
+   note="The attempt function is abstracted by the functype contract core.ProxyFunc (assumed here, see C02 for the engines); uniqueNames(endpoints) is a precondition not established by configuration loading (two endpoints with the same name: not covered). fmt.Errorf/errors.Is/errors.As are trusted models with three listed axioms about net error types; numeric verbs in messages are rendered as \"0\". Three genuine defects were found by these obligations, replayed on the real code and fixed: circuit-open skip ended the request (F04a), timed-out connections lost their connection class (F04c), started responses were re-dispatched (F02, recorded under C02)."),
 }
 not_applicable = {}
 props = [json.loads(l) for l in open('/verif/properties.jsonl')]
